@@ -93,12 +93,20 @@ func buildReceiver(t, prior string) (*fsmx.Inst, *fsmx.Env, error) {
 	if err != nil {
 		return nil, nil, err
 	}
-	if prior == "other" {
+	if prior == "other" || prior == "other+own-snapshot" {
 		ents := []sm.Entry{
 			fsmx.Entry(40, Put("a", "old", false)),
 			fsmx.Entry(50, WithLeader(Put("zz", "old", false), 99)),
 		}
 		if _, err := inst.Update(ents); err != nil {
+			inst.Close()
+			return nil, nil, err
+		}
+	}
+	if prior == "other+own-snapshot" {
+		// the receiver has produced a snapshot of its own, in its own configured format, before
+		// (dragonboat snapshots every replica periodically)
+		if err := inst.SaveSnapshot(nil, io.Discard, nil); err != nil {
 			inst.Close()
 			return nil, nil, err
 		}
@@ -471,7 +479,7 @@ func Run(r *evid.Run) {
 	if r.Thorough() {
 		depth = 3
 	}
-	r.Rule(fmt.Sprintf("(1) fidelity: every history of length 0..%d over the 16-entry C03 alphabet x saver format {snapshot,checkpoint} x receiver format x receiver prior state {fresh, other content at a higher index} x {no write, a write between prepare and save}; plus a write applied from inside save after its j-th output write, every j; receiver must equal the saver at prepare time (content, applied, leader index, hash), stay usable and reopen to the same. (2) stop signal at the j-th input read of recover / j-th output write of save, every j: receiver entirely old or entirely new, usable, same after reopen; saver unchanged. (3) crash at every FS operation boundary of histories containing snapshot installs (C04 machinery). (4) reads overlapping an install at API granularity: unary read, lazy stream obtained and pulled message by message, install placed before every reader step, both formats. (5) the same overlap at statement granularity under the cooperative scheduler: one reader thread (unary / streamed) and one installer thread (both formats), a scheduling point before every statement of the read path and of recover, all interleavings up to the preemption bound. Non-trivial: all cases; distinct = distinct (case, observed state) renderings", depth))
+	r.Rule(fmt.Sprintf("(1) fidelity: every history of length 0..%d over the 16-entry C03 alphabet x saver format {snapshot,checkpoint} x receiver format x receiver prior state {fresh, other content at a higher index, the same after having saved a snapshot of its own in its own format} x {no write, a write between prepare and save}; plus a write applied from inside save after its j-th output write, every j; receiver must equal the saver at prepare time (content, applied, leader index, hash), stay usable and reopen to the same. (2) stop signal at the j-th input read of recover / j-th output write of save, every j: receiver entirely old or entirely new, usable, same after reopen; saver unchanged. (3) crash at every FS operation boundary of histories containing snapshot installs (C04 machinery). (4) reads overlapping an install at API granularity: unary read, lazy stream obtained and pulled message by message, install placed before every reader step, both formats. (5) the same overlap at statement granularity under the cooperative scheduler: one reader thread (unary / streamed) and one installer thread (both formats), a scheduling point before every statement of the read path and of recover, all interleavings up to the preemption bound. Non-trivial: all cases; distinct = distinct (case, observed state) renderings", depth))
 	total := par.SeqCount(len(alpha), depth)
 	types := []string{"s", "c"}
 	// (1)
@@ -479,7 +487,7 @@ func Run(r *evid.Run) {
 		log := par.SeqAt(len(alpha), depth, i)
 		for _, sv := range types {
 			for _, rc := range types {
-				for _, prior := range []string{"fresh", "other"} {
+				for _, prior := range []string{"fresh", "other", "other+own-snapshot"} {
 					for _, btw := range []bool{false, true} {
 						c := Case{Kind: "fidelity", Log: log, Saver: sv, Receiver: rc, Prior: prior, Between: btw}
 						vs, outcome := RunFidelity(c)
